@@ -349,7 +349,8 @@ def arr_getitem(ctx, a, idx):
             r.base = a
             return r
         if isinstance(idx, SymArr) and idx.kind == "bool":
-            raise Unsupported("boolean-mask selection from a symbolic array (length is data dependent)")
+            same_len(ctx, a.n, idx.n)
+            return MaskedSel(a, idx)
         if is_scalar(idx):
             i = norm_index(ctx, idx, a.n)
             return a.elem(i)
@@ -449,6 +450,36 @@ def cxpart_setitem(ctx, a, part, idx, val, op=None):
     raise Unsupported("component update %r[%r]" % (a, idx))
 
 
+def same_mask(ctx, m1, m2):
+    """two boolean arrays are element-wise the same formula (syntactic check on an arbitrary index)"""
+    if m1 is m2:
+        return True
+    k = z3.Int("mask!idx")
+    e1, e2 = m1.elem(k), m2.elem(k)
+    if not is_z3(e1) or not is_z3(e2):
+        return e1 is e2 or (not is_z3(e1) and not is_z3(e2) and e1 == e2)
+    if z3.simplify(m1.n == m2.n) is False:
+        return False
+    return z3.is_true(z3.simplify(e1 == e2)) and (m1.n is m2.n or z3.is_true(z3.simplify(lift_int(m1.n) == lift_int(m2.n))))
+
+
+def lift_int(x):
+    return z3.IntVal(x) if isinstance(x, int) else x
+
+
+def masked_binop(ctx, op, a, b):
+    """element-wise arithmetic on masked selections: every array operand must be a selection with the same mask"""
+    ms = [x for x in (a, b) if isinstance(x, MaskedSel)]
+    for x in (a, b):
+        if not isinstance(x, MaskedSel) and not is_scalar(x):
+            raise Unsupported("masked selection combined with %r" % (x,))
+    if len(ms) == 2 and not same_mask(ctx, ms[0].mask, ms[1].mask):
+        raise Unsupported("masked selections with different masks combined")
+    ua = a.arr if isinstance(a, MaskedSel) else a
+    ub = b.arr if isinstance(b, MaskedSel) else b
+    return MaskedSel(arr_binop(ctx, op, ua, ub), ms[0].mask)
+
+
 def arr_setitem(ctx, a, idx, val, op=None):
     """a[idx] = val   (or a[idx] op= val)"""
     def comb(old, new):
@@ -509,6 +540,14 @@ def arr_setitem(ctx, a, idx, val, op=None):
         if isinstance(idx, SymArr) and idx.kind == "bool":
             same_len(ctx, a.n, idx.n)
             me = idx.elem
+            if isinstance(val, MaskedSel):
+                if not same_mask(ctx, val.mask, idx):
+                    raise Unsupported("mask assignment from a selection made with a different mask")
+                ve = val.arr.elem
+                a.elem = lambda i: z_ite(me(i), comb(old(i), ve(i)), old(i))
+                if val.arr.kind == "complex":
+                    a.kind = "complex"
+                return
             if isinstance(val, SymArr):
                 raise Unsupported("mask assignment with array values on symbolic array")
             a.elem = lambda i: z_ite(me(i), comb(old(i), val), old(i))
